@@ -31,6 +31,8 @@ func init() {
 			r.borrow("C08", func() { ruleD1(r) }) // a dispatch goroutine stuck on an abandoned reply channel survives Close
 			ruleC10O11(r)
 			ruleC10O14(r)
+			ruleC10O15(r)
+			ruleC10O16(r)
 			le10 := newLockEngine(r.P)
 			ruleW4(r, le10, "O13")
 			ruleLockPairingFor(r, le10, "O12", "no lock outlives its function in the connection layer: every function of iscp.Conn that takes a lock releases it on every path (a leaked table mutex makes calls after Close block instead of failing)", func(fn *ssa.Function) bool {
@@ -300,7 +302,7 @@ func ruleC10O2(r *Run) {
 	})
 	var dial ssa.Instruction
 	allInstrs(rec, func(ins ssa.Instruction) {
-		if isCallNamed(ins, "/internal/retry.Do", "/internal/retry.Retry.Do", "/iscp.ConnConfig.connectWire") && dial == nil {
+		if (isCallNamed(ins, "/internal/retry.Do", "/internal/retry.Retry.Do", "/iscp.ConnConfig.connectWire") || isCallNamed(ins, "/wire.Connect")) && dial == nil {
 			dial = ins
 		}
 	})
@@ -319,23 +321,48 @@ func ruleC10O2(r *Run) {
 	}
 	r.Check(name+" refuses when closed", ok, p.pos(rec.Pos()), name, "the dial must be reachable only after CompareAndSwapNot(Closed, Reconnecting) succeeded; its failure returns ErrConnectionClosed")
 	// retry closure returns Is(Closed) on failure
-	okStop := false
-	for _, cl := range rec.AnonFuncs {
-		if !p.reachesCall(cl, 0, "/iscp.ConnConfig.connectWire") {
-			continue
+	// every retry body of reconnect (a function literal handed to retry.Do): a return reports 'end' either as the
+	// constant true (success) or as Is(Closed); at least one of the bodies performs the wire connect
+	okStop := true
+	connects := false
+	bodies := 0
+	allInstrs(rec, func(site ssa.Instruction) {
+		if !isCallNamed(site, "/internal/retry.Do", "/internal/retry.Retry.Do") {
+			return
 		}
-		allInstrs(cl, func(ins ssa.Instruction) {
-			if ret, isRet := ins.(*ssa.Return); isRet && len(ret.Results) == 1 {
-				if c, isCall := retResults(ret)[0].(*ssa.Call); isCall {
+		for _, a := range instrCall(site).Args {
+			cl := closureOf(a)
+			if cl == nil {
+				continue
+			}
+			bodies++
+			if p.reachesCall(cl, 4, "/wire.Connect") {
+				connects = true
+			}
+			allInstrs(cl, func(ins ssa.Instruction) {
+				ret, isRet := ins.(*ssa.Return)
+				if !isRet || len(ret.Results) != 1 {
+					return
+				}
+				rv := retResults(ret)[0]
+				if k, isK := rv.(*ssa.Const); isK && k.Value != nil && k.Value.String() == "true" {
+					return
+				}
+				good := false
+				if c, isCall := rv.(*ssa.Call); isCall {
 					if cf := c.Call.StaticCallee(); cf != nil && recvTypeName(cf) == "connStatus" && cf.Name() == "Is" {
 						if v, isC := constInt(c.Call.Args[1]); isC && v == closedC {
-							okStop = true
+							good = true
 						}
 					}
 				}
-			}
-		})
-	}
+				if !good {
+					okStop = false
+				}
+			})
+		}
+	})
+	okStop = okStop && connects && bodies > 0
 	r.Check(name+" retry stops on Closed", okStop, p.pos(rec.Pos()), name, "after a failed dial the retry closure must report 'end' exactly when the status is Closed")
 	// run loop
 	for _, s := range p.staticCallSites(rec) {
@@ -484,7 +511,7 @@ func ruleC10P1(r *Run) {
 			}
 			if !allowed {
 				// the panic moved, with the switch it ends, into a helper: a function that did not exist on the confirmed
-				// tree, is unexported, is called only from allowed functions, and those no longer panic themselves
+				// tree, is unexported and is called only from allowed functions
 				top := topFunc(fn)
 				var base map[string]wiredEntry
 				_ = json.Unmarshal(baselineReachableJSON, &base)
@@ -497,17 +524,6 @@ func ruleC10P1(r *Run) {
 						if !ok2 {
 							moved = false
 							continue
-						}
-						stillPanics := false
-						withAnon(caller, func(g *ssa.Function) {
-							allInstrs(g, func(x ssa.Instruction) {
-								if q, isP := x.(*ssa.Panic); isP && q.Pos().IsValid() {
-									stillPanics = true
-								}
-							})
-						})
-						if stillPanics {
-							moved = false
 						}
 						reason = "moved out of " + fnName(caller) + ": " + why
 					}
@@ -706,5 +722,194 @@ func ruleC10O14(r *Run) {
 			})
 		}
 		r.Check("set "+fk, ins > 0 && del > 0 && rng > 0, "", "iscp", fmt.Sprintf("%d insert site(s), %d delete site(s), %d range(s) over %s", ins, del, rng, fk))
+	}
+}
+
+// ruleC10O15: Closed is terminal, so a goroutine that waits for any other status must also wake up for Closed. A wait
+// through WaitUntil(ctx, Connected) with a context nobody cancels on Close parks the stream supervisor for ever when
+// Close arrives while the connection is being redialled.
+func ruleC10O15(r *Run) {
+	r.Begin("O15", "no wait outlives Close: every call of (*connStatus).WaitUntil for a status other than Closed passes a context derived from connStatus.WithCloseStatus; otherwise the wait is made with WaitUntilOrClosed (which returns ErrConnectionClosed once the status is Closed)", 2)
+	p := r.P
+	closedC, ok := p.enumConst("/iscp", "connStatusClosed")
+	if !ok {
+		r.Undecided("anchor connStatusClosed", "constant not found")
+		return
+	}
+	n := 0
+	per := map[string]int{}
+	for _, c := range p.moduleCalls("/iscp.connStatus.WaitUntil") {
+		cc := instrCall(c)
+		if cc == nil || len(cc.Args) < 3 {
+			continue
+		}
+		fn := c.Parent()
+		name := fnName(fn)
+		per[name]++
+		n++
+		st, isK := constInt(cc.Args[2])
+		key := fmt.Sprintf("%s wait#%d gives up on Closed", name, per[name])
+		if isK && st == closedC {
+			r.Check(key, true, posOf(p, c), name, "waits for Closed itself")
+			continue
+		}
+		l := p.Leaves(cc.Args[1], provOpts{ParamDepth: 1})
+		okCtx := hasLeaf(l, "call:/iscp.connStatus.WithCloseStatus")
+		r.Check(key, okCtx, posOf(p, c), name, "WaitUntil for a status other than Closed with a context that Close does not cancel (context from ["+joinLeaves(l)+"]): if Close arrives while the connection is being redialled the status never becomes the awaited one and the goroutine, its event dispatcher and its deferred unregistration stay behind for ever")
+	}
+	if n == 0 {
+		r.Undecided("WaitUntil call sites", "none found")
+	}
+}
+
+// ruleC10O16: a wait that promises to give up on Closed has to look at Closed after every wake-up. Close wakes the
+// waiters exactly once; a test made only before the wait lets a request that was already parked (a redial was in
+// progress) go back to sleep for ever.
+func ruleC10O16(r *Run) {
+	r.Begin("O16", "Closed is re-tested inside the wait loop: every method of the connection status holder that can return ErrConnectionClosed and reaches cond.Wait has its Closed test inside the loop of that Wait — directly, or as a function value that the waiting function invokes inside the loop", 1)
+	p := r.P
+	holder := r.named("/iscp", "connStatus")
+	fld := r.field("/iscp", "connStatus", "current")
+	closedC, okC := p.enumConst("/iscp", "connStatusClosed")
+	if holder == nil || fld == nil || !okC {
+		r.Undecided("anchors", "connStatus, its status field or connStatusClosed not found")
+		return
+	}
+	onHolder := func(fn *ssa.Function) bool {
+		t := topFunc(fn)
+		return t.Signature.Recv() != nil && namedOf(t.Signature.Recv().Type()) == holder
+	}
+	// a test "status == Closed" whose equal edge returns the sentinel, inside the given blocks (nil = anywhere in fn)
+	closedTest := func(fn *ssa.Function, within map[*ssa.BasicBlock]bool) bool {
+		found := false
+		allInstrs(fn, func(ins ssa.Instruction) {
+			ifs, ok := ins.(*ssa.If)
+			if !ok || (within != nil && !within[ifs.Block()]) {
+				return
+			}
+			bo, isBo := ifs.Cond.(*ssa.BinOp)
+			if !isBo || (bo.Op != token.EQL && bo.Op != token.NEQ) {
+				return
+			}
+			var other ssa.Value
+			if v, isK := constInt(bo.Y); isK && v == closedC {
+				other = bo.X
+			} else if v, isK := constInt(bo.X); isK && v == closedC {
+				other = bo.Y
+			}
+			if other == nil || !typeIs(other.Type(), modPath+"/iscp", "connStatusValue") {
+				return
+			}
+			eq := ifs.Block().Succs[0]
+			if bo.Op == token.NEQ {
+				eq = ifs.Block().Succs[1]
+			}
+			if nm, isS := returnsSentinel(eq); isS && nm == "ErrConnectionClosed" {
+				found = true
+			}
+		})
+		return found
+	}
+	type waiter struct {
+		direct    bool
+		viaParams map[int]bool
+	}
+	waiters := map[*ssa.Function]*waiter{}
+	for _, fn := range p.Funcs {
+		if fnPkgPath(fn) != modPath+"/iscp" || fn.Blocks == nil || !onHolder(fn) {
+			continue
+		}
+		allInstrs(fn, func(ins ssa.Instruction) {
+			c, ok := ins.(*ssa.Call)
+			if !ok {
+				return
+			}
+			if op, _ := classifyLockCall(&c.Call); op != opWait || !inLoop(c) {
+				return
+			}
+			loop := loopBlocks(c.Block())
+			w := &waiter{viaParams: map[int]bool{}}
+			w.direct = closedTest(fn, loop)
+			for b := range loop {
+				for _, x := range b.Instrs {
+					if cc, isC := x.(*ssa.Call); isC && cc.Call.StaticCallee() == nil && !cc.Call.IsInvoke() {
+						if prm, isP := canonVal(cc.Call.Value).(*ssa.Parameter); isP {
+							for j, q := range fn.Params {
+								if q == prm {
+									w.viaParams[j] = true
+								}
+							}
+						}
+					}
+				}
+			}
+			waiters[fn] = w
+		})
+	}
+	n := 0
+	for _, fn := range p.Funcs {
+		if fnPkgPath(fn) != modPath+"/iscp" || fn.Blocks == nil || fn.Parent() != nil || !onHolder(fn) {
+			continue
+		}
+		// does fn promise ErrConnectionClosed? (itself or in a function literal it hands on)
+		promises := closedTest(fn, nil)
+		for _, cl := range fn.AnonFuncs {
+			if closedTest(cl, nil) {
+				promises = true
+			}
+		}
+		allInstrs(fn, func(ins ssa.Instruction) {
+			if c, ok := ins.(*ssa.Call); ok {
+				if cal := c.Call.StaticCallee(); cal != nil && cal.Signature.Recv() != nil && namedOf(cal.Signature.Recv().Type()) == holder && cal.Name() == "Is" && len(c.Call.Args) > 1 {
+					if v, isK := constInt(c.Call.Args[1]); isK && v == closedC && c.Referrers() != nil {
+						for _, ref := range *c.Referrers() {
+							if ifs, isIf := ref.(*ssa.If); isIf {
+								if nm, isS := returnsSentinel(ifs.Block().Succs[0]); isS && nm == "ErrConnectionClosed" {
+									promises = true
+								}
+							}
+						}
+					}
+				}
+			}
+		})
+		if !promises {
+			continue
+		}
+		name := fnName(fn)
+		ok, reaches := false, false
+		if w := waiters[fn]; w != nil {
+			reaches = true
+			ok = w.direct
+		}
+		allInstrs(fn, func(ins ssa.Instruction) {
+			c, isC := ins.(*ssa.Call)
+			if !isC {
+				return
+			}
+			w := waiters[c.Call.StaticCallee()]
+			if w == nil {
+				return
+			}
+			reaches = true
+			if w.direct {
+				ok = true
+			}
+			for j := range w.viaParams {
+				if j < len(c.Call.Args) {
+					if cl := closureOf(c.Call.Args[j]); cl != nil && closedTest(cl, nil) {
+						ok = true
+					}
+				}
+			}
+		})
+		if !reaches {
+			continue
+		}
+		n++
+		r.Check(name+" re-tests Closed after every wake-up", ok, p.pos(fn.Pos()), name, "the function returns ErrConnectionClosed for a closed connection and then waits on the status condition, but the Closed test is not inside the wait loop: a caller already parked when Close arrives is woken once, finds the awaited status still missing and sleeps for ever")
+	}
+	if n == 0 {
+		r.Undecided("waits that give up on Closed", "no method of connStatus both returns ErrConnectionClosed and waits")
 	}
 }
